@@ -78,6 +78,17 @@ func CmdCheck(cfg RunConfig) int {
 	}
 	if len(retry) > 0 {
 		ssec += SolveAll(retry, dir, to*3)
+		// last rung: what is still undecided gets a long budget (a loaded machine must not turn a proof that exists into
+		// an alarm; a real violation stays undecided or refuted here as well and is reported below)
+		var again []*Obligation
+		for _, o := range retry {
+			if (strings.HasPrefix(o.Status, "failed-") && o.Status != "failed-sat" && o.Candidate == "") || (o.Cover && o.Status != "cover-sat" && o.Status != "cover-unsat") {
+				again = append(again, o)
+			}
+		}
+		if len(again) > 0 {
+			ssec += SolveAll(again, dir, to*12)
+		}
 	}
 	byName := map[string]*Obligation{}
 	for _, o := range res.Obls {
